@@ -47,6 +47,7 @@ func (b *blockCache) get(count int) []byte {
 func run(c *vf.Ctx) {
 	c.Rule("pwlen{1,2,72,73,100} x saltlen{1,16,64} x rounds{1,2,3,16,32} x keylen (1..70,96,97 at rounds 1 and on a shape diagonal at rounds 2; {1,31,32,33,63,64,65,96,97} at rounds 2,3; {1,32,33,65} at 16; {1,33} at 32; thorough: 1..200 at rounds 1..3, 1..70,96,97,128,129 at 16,32) " +
 		"+ corners (saltlen 2^20, keylen 200/1024) + product of argument classes pwlen{0,1} x saltlen{0,1,2^20,2^20+1} x rounds{-1,0,1} x keylen{1,1024,1025,4096}: error iff OpenBSD rejects; " +
+		"hardening: (A) every valid call hands over password and salt as private copies in sentinel-framed buffers (spare capacity or cap == len, alternating), intact after the call and wiped before the comparison; (C) password length 2^k+{-1,0,1,111,112,127,128,129}, k=7..22, salt length 2^k+{-5,-4,-1,0,1,107,108,123,124,127,128}, k=7..19 and 2^20-{133,132,129,128,5,4,3,1}; (E) rounds{255,256,257} (thorough +1023,1024,1025), keylen{255,256,257,511,512,513,767,768,769,1000} x 2 shapes; (D) every history of 3 calls over 3 valid + 4 invalid argument sets; " +
 		"non-trivial = distinct (pwlen, saltlen, rounds, keylen) compared byte for byte with the model, keylen > 32 (strided interleave of several blocks) counted separately in 'multi_block_points'")
 	c.Assume("password/salt values: one seeded class per shape plus boundary classes on a sub-grid (both are collapsed by SHA-512 before use); values outside are not enumerated")
 	c.Assume("reference model trusted: crypto/sha512, pi-computed Blowfish; validated by OpenBSD known answers and by decrypting 7 keys written by ssh-keygen 9.2 (aes128/192/256-ctr, aes256-cbc, 3des-cbc; rounds 1..16)")
@@ -119,12 +120,21 @@ func run(c *vf.Ctx) {
 	compare := func(pass, salt []byte, rounds, k int, want []byte) {
 		var got []byte
 		var err error
-		if p, v, st := vf.Protect(func() { got, err = ssh.VerifC19BcryptPBKDFKey(pass, salt, rounds, k) }); p {
+		// hardening A: private sentinel-framed copies (spare capacity behind the slice or cap == len,
+		// alternating), intact after the call, wiped before the key is compared
+		fpass, gpass := guard(pass, (len(pass)+k)%2 == 0)
+		fsalt, gsalt := guard(salt, (len(salt)+k+rounds)%2 == 0)
+		if p, v, st := vf.Protect(func() { got, err = ssh.VerifC19BcryptPBKDFKey(gpass, gsalt, rounds, k) }); p {
 			c.Violation("bcrypt_pbkdf.Key panics on valid arguments", map[string]any{"pwlen": len(pass), "saltlen": len(salt), "rounds": rounds, "keylen": k, "panic": fmt.Sprint(v), "stack": st})
 			return
 		}
 		c.Eval(1)
-		d := map[string]any{"pwlen": len(pass), "saltlen": len(salt), "rounds": rounds, "keylen": k, "pass": fmt.Sprintf("%x", pass), "salt": vf.Hex8(salt)}
+		d := map[string]any{"pwlen": len(pass), "saltlen": len(salt), "rounds": rounds, "keylen": k, "pass": vf.Hex8(pass), "salt": vf.Hex8(salt)}
+		if !intact(fpass, pass) || !intact(fsalt, salt) {
+			c.Violation("bcrypt_pbkdf.Key writes to the caller's password/salt buffer or its spare capacity", d)
+		}
+		wipe(fpass)
+		wipe(fsalt)
 		if err != nil {
 			d["err"] = err.Error()
 			c.Violation("bcrypt_pbkdf.Key rejects valid arguments", d)
@@ -143,7 +153,16 @@ func run(c *vf.Ctx) {
 				first++
 			}
 			d["first_difference_at"] = first
-			c.Violation("bcrypt_pbkdf.Key differs from OpenBSD bcrypt_pbkdf", d)
+			cls := "bcrypt_pbkdf.Key differs from OpenBSD bcrypt_pbkdf"
+			switch {
+			case len(pass) > 100:
+				cls += " [long password]"
+			case len(salt) > 64:
+				cls += " [long salt]"
+			case rounds >= 255:
+				cls += " [rounds >= 255]"
+			}
+			c.Violation(cls, d)
 		}
 		c.Outcome("valid: equal to model")
 		c.Nontrivial(fmt.Sprintf("%d/%d/%d/%d", len(pass), len(salt), rounds, k))
@@ -178,6 +197,8 @@ func run(c *vf.Ctx) {
 		compare(pass, salt, g.rounds, g.k, want)
 	})
 
+	hardening(c, compare)
+
 	// argument classes: error iff OpenBSD rejects (key length <= 0 left out, see assumptions)
 	type arg struct{ pl, sl, rounds, k int }
 	var args []arg
@@ -209,7 +230,7 @@ func run(c *vf.Ctx) {
 			passes = append(passes, nil)
 		}
 		for _, pass := range passes {
-			salt := bigSalt[:a.sl]
+			salt := bigSalt[:a.sl:a.sl]
 			if a.sl == 0 && pass == nil {
 				salt = nil
 			}
@@ -254,4 +275,125 @@ func run(c *vf.Ctx) {
 	n := 0
 	multi.Range(func(_, _ any) bool { n++; return true })
 	c.Set("multi_block_points", n)
+}
+
+// ---------------------------------------------------------------- hardening pass
+
+func guard(b []byte, spare bool) (frame, s []byte) {
+	frame = bytes.Repeat([]byte{0xA5}, 8+len(b)+24)
+	copy(frame[8:], b)
+	if spare {
+		return frame, frame[8 : 8+len(b)]
+	}
+	return frame, frame[8 : 8+len(b) : 8+len(b)]
+}
+
+func intact(frame, orig []byte) bool {
+	for i, v := range frame {
+		if i >= 8 && i < 8+len(orig) {
+			if v != orig[i-8] {
+				return false
+			}
+		} else if v != 0xA5 {
+			return false
+		}
+	}
+	return true
+}
+
+func wipe(frame []byte) {
+	for i := range frame {
+		frame[i] ^= 0xFF
+	}
+}
+
+func hardening(c *vf.Ctx, compare func(pass, salt []byte, rounds, k int, want []byte)) {
+	type job struct{ pl, sl, rounds, k int }
+	var jobs []job
+	// C: long passwords (SHA-512 block 128, padding boundary 111/112) and long salts (salt || 4-octet
+	// block count is hashed: -4 puts the count on the block boundary) up to the documented maximum 2^20
+	for k := 7; k <= 22; k++ {
+		for _, d := range []int{-1, 0, 1, 111, 112, 127, 128, 129} {
+			jobs = append(jobs, job{1<<uint(k) + d, 16, 1, 33})
+		}
+	}
+	for k := 7; k <= 19; k++ {
+		for _, d := range []int{-5, -4, -1, 0, 1, 107, 108, 123, 124, 127, 128} {
+			jobs = append(jobs, job{9, 1<<uint(k) + d, 1, 33})
+		}
+	}
+	for _, d := range []int{-133, -132, -129, -128, -5, -4, -3, -1} {
+		jobs = append(jobs, job{9, 1<<20 + d, 2, 65})
+	}
+	// E: rounds and key lengths on each side of 2^8 (rounds around 2^10 in thorough)
+	rs := []int{255, 256, 257} // one round = one bcryptHash (~5 ms): 2^10 only in thorough, 2^16 would take minutes per point
+	if c.Thorough {
+		rs = append(rs, 1023, 1024, 1025)
+	}
+	for _, r := range rs {
+		jobs = append(jobs, job{8, 16, r, 32})
+		if r < 1000 {
+			jobs = append(jobs, job{8, 16, r, 33})
+		}
+	}
+	for _, k := range []int{255, 256, 257, 511, 512, 513, 767, 768, 769, 1000} {
+		jobs = append(jobs, job{8, 16, 1, k}, job{73, 5, 2, k})
+	}
+	src := vf.DetBytes(fmt.Sprintf("%d|bcrypt-pbkdf-long", c.Seed), 1<<22+200)
+	c.ParallelFor(len(jobs), func(i int) {
+		j := jobs[i]
+		pass, salt := src[3:3+j.pl], src[77:77+j.sl]
+		want, err := bcryptpbkdfref.Key(pass, salt, j.rounds, j.k)
+		if err != nil {
+			c.Violation("harness: model rejects a hardening point", fmt.Sprint(j))
+			return
+		}
+		compare(pass, salt, j.rounds, j.k, want)
+	})
+	c.Set("hardening_points", len(jobs))
+
+	// D: every history of 3 calls over valid and invalid argument sets: each call gives its own
+	// result (model key, or error without key material), also after error returns; keys returned
+	// earlier stay unchanged.
+	type as struct{ pl, sl, rounds, k int }
+	alpha := []as{{5, 16, 1, 32}, {73, 3, 2, 65}, {1, 1, 3, 1}, {5, 16, 0, 32}, {0, 16, 1, 32}, {5, 0, 1, 32}, {5, 16, 1, 1025}}
+	want := make([][]byte, len(alpha))
+	for i, a := range alpha {
+		if bcryptpbkdfref.Valid(a.pl, a.sl, a.rounds, a.k) {
+			want[i], _ = bcryptpbkdfref.Key(src[:a.pl], src[200:200+a.sl], a.rounds, a.k)
+		}
+	}
+	n := len(alpha)
+	c.ParallelFor(n*n*n, func(h int) {
+		seq := []int{h / (n * n), h / n % n, h % n}
+		var outs, saved [][]byte
+		for pos, x := range seq {
+			a := alpha[x]
+			_, pass := guard(src[:a.pl], pos%2 == 0)
+			_, salt := guard(src[200:200+a.sl], pos%2 == 1)
+			var got []byte
+			var err error
+			d := map[string]any{"history": fmt.Sprint(alpha[seq[0]], alpha[seq[1]], alpha[seq[2]]), "position": pos}
+			if p, v, _ := vf.Protect(func() { got, err = ssh.VerifC19BcryptPBKDFKey(pass, salt, a.rounds, a.k) }); p {
+				d["panic"] = fmt.Sprint(v)
+				c.Violation("bcrypt_pbkdf.Key panics in a call history", d)
+				return
+			}
+			c.Eval(1)
+			switch {
+			case want[x] == nil && (err == nil || got != nil):
+				c.Violation("bcrypt_pbkdf.Key accepts invalid arguments at a later position of a call history", d)
+			case want[x] != nil && (err != nil || !bytes.Equal(got, want[x])):
+				c.Violation("bcrypt_pbkdf.Key result depends on earlier calls (!= model at a later position of a call history)", d)
+			}
+			outs, saved = append(outs, got), append(saved, append([]byte(nil), got...))
+			for q := 0; q < pos; q++ {
+				if !bytes.Equal(outs[q], saved[q]) {
+					c.Violation("bcrypt_pbkdf.Key: a key returned earlier changes when a later call runs", d)
+				}
+			}
+		}
+		c.Nontrivial(fmt.Sprintf("hist/%v", seq))
+	})
+	c.Outcome("call histories checked")
 }
